@@ -359,3 +359,5 @@ _quick("C02", "C02_many", "300 LockIds hold a key of unlimited capacity (beyond 
 _quick("C17", "C17_outoforder", "7..9 holders of a shared key (the inline part of the holder queue is full), one that is not the oldest released, 1..2 more holders taken (the queue compacts), everything released, wheel swept: counters back, no live manager", ["-witness", "4"])
 
 _quick("C10", "C10_wire", "a plain BinaryServerProtocol connection on a node in any non-leader state (key held or not): a LOCK / UNLOCK with any flag byte (8 symbolic bits, no value frame) through the real ProcessCommad is refused with STATE_ERROR (TIMEOUT allowed for the concurrent-check shortcut) and changes nothing", ["-witness", "5"])
+
+_quick("C08", "C08_tail", "a log of a header and 1..3 records (symbolic bytes) cut at every byte from 12 on; Aof.LoadFileMaxAofLock (the log position a restarting node continues from) does not fail on a torn last record and returns the last complete record", ["-witness", "10"], reach=["end", "empty"])
